@@ -828,6 +828,29 @@ def merge (less : α → α → Bool) : List α → List α → List α
     if less y x then y :: merge less (x :: l) r else x :: merge less l (y :: r)
 termination_by l r => l.length + r.length
 
+/-! ### `findIdx` = `sort.Search` (array_sparse.go:27, Go sort/search.go) -/
+
+/-- Go's `sort.Search` loop: `for i < j { h := int(uint(i+j) >> 1); if !f(h) { i = h+1 } else { j = h } }`
+(fuel = an upper bound of the number of iterations; `n` suffices). -/
+def searchLoop (f : Nat → Bool) : Nat → Nat → Nat → Nat
+  | 0, i, _ => i
+  | fuel + 1, i, j =>
+    if i < j then
+      let h := (i + j) / 2
+      if !f h then searchLoop f fuel (h + 1) j else searchLoop f fuel i h
+    else i
+
+def goSearch (n : Nat) (f : Nat → Bool) : Nat := searchLoop f n 0 n
+
+/-- array_sparse.go:27 `findIdx`: `sort.Search(len(items), func(i) bool { return items[i].idx >= idx })`. -/
+def findIdx (items : Items) (idx : Nat) : Nat :=
+  goSearch items.length (fun i => match items[i]? with | some p => decide (p.1 ≥ idx) | none => true)
+
+/-- the linear reading used by `sFind`/`sIns`/`sSetAt`/`sDel`/`sTake`: first position whose key is ≥ idx. -/
+def sPos : Items → Nat → Nat
+  | [], _ => 0
+  | (k, _) :: t, idx => if k < idx then sPos t idx + 1 else 0
+
 /-! ### `Array.prototype.pop` (builtin_array.go:117 generic, :130 fast path on `*arrayObject`) -/
 
 /-- builtin_array.go:130–160: the fast path. `none` = "optimisation bail-out" to the generic path
@@ -866,6 +889,25 @@ def SpecArray.pop (a : SpecArray) : SpecArray × Bool :=
   else
     let d := a.delete (a.length - 1)
     if !d.2 then d else d.1.setLength (a.length - 1)
+
+/-! ### the block structure of Go's `sort.Stable` (sort/sort.go `stable`)
+
+`insertionSort` on blocks (of 20), then passes that merge neighbouring blocks (`symMerge`) with the
+block size doubling until one block is left. `symMerge` (Go standard library) is represented by the
+stable two-way `merge` above. -/
+
+def mergePass (less : α → α → Bool) : List (List α) → List (List α)
+  | a :: b :: rest => merge less a b :: mergePass less rest
+  | l => l
+
+/-- iterate the passes (`fuel` ≥ number of blocks suffices) and return the elements in order. -/
+def mergeAll (less : α → α → Bool) : Nat → List (List α) → List α
+  | 0, cs => cs.flatten
+  | fuel + 1, cs => if cs.length ≤ 1 then cs.flatten else mergeAll less fuel (mergePass less cs)
+
+/-- `sort.Stable` on a list already cut into blocks (any block sizes; Go uses 20). -/
+def stableSortBlocks (less : α → α → Bool) (blocks : List (List α)) : List α :=
+  mergeAll less blocks.length (blocks.map (isort less))
 
 /-! ### sort under an adversarial comparator
 
